@@ -3,6 +3,9 @@ import re
 from collections import defaultdict, deque
 
 
+_PROMOTED = re.compile(r"promoted\[(\d+)\]")
+
+
 def place_key(p):
     """Hashable, printable form of a place."""
     parts = ["_%d" % p["l"]]
@@ -301,7 +304,14 @@ class Func:
             if rv["k"] == "use":
                 c = op_const(rv["a"])
                 if c is not None:
-                    if cur["p"]:
+                    # a reference to a promoted constant: look its literal up
+                    m = _PROMOTED.search(c.get("text", "")) if "text" in c else None
+                    if m is not None:
+                        lits = self.j.get("promoted", [])
+                        i = int(m.group(1))
+                        if i < len(lits) and len(lits[i]) == 1 and all(e == "deref" for e in cur["p"]):
+                            return ("const", lits[i][0])
+                    if cur["p"] and not ("s" in c and all(e == "deref" for e in cur["p"])):
                         return ("place", cur)
                     return ("const", c)
                 q = op_place(rv["a"])
